@@ -1,3 +1,4 @@
+import Sparrow.Proofs.KernelCorollaries
 import Sparrow.Proofs.KernelEquiv
 import Sparrow.Proofs.PipelineEnergy
 import Sparrow.Proofs.Mono
@@ -130,3 +131,22 @@ theorem collectReceiverEnergy_eq (P B S : Nat) (E : Nat → Nat → Nat → ℝ)
   Sparrow.collectReceiverEnergy_eq P B S E s0 dist c dt s1 att i b t hi hb
 
 end Sparrow.Props.C03.Kernels
+
+namespace Sparrow.Props.C03.Translated
+open Sparrow Sparrow.Generated.Kernels
+
+/-- C03: with non-negative initial energies and transfer factors every bin is non-negative, and
+    one more order never lowers a bin. -/
+theorem energyExchange_nonneg_mono (S P D B : Nat) (e0 : Nat → Nat → Nat → ℝ)
+    (s0 : Nat) (distance_0 : Nat → ℝ) (s1 s2 : Nat) (distance_ij : Nat → Nat → ℝ)
+    (P' : Nat) (fft : Nat → Nat → Nat → Nat → ℝ) (s3 s4 : Nat) (p2o : Nat → Nat → Nat)
+    (c dt : ℝ) (K nVis s5 : Nat) (vp : Nat → Nat → Nat) (b : Nat)
+    (hwf : (exSceneOfArgs S P D e0 distance_0 distance_ij fft p2o c dt nVis vp b).WF)
+    (he : ∀ j d, 0 ≤ e0 j d b) (hf : ∀ i j d, 0 ≤ fft i j d b)
+    (j d t : Nat) (hj : j < P) (hd : d < D) (ht : t < S) :
+    0 ≤ energyExchange S P D B e0 s0 distance_0 s1 s2 distance_ij P P' D B fft s3 s4 p2o c dt K nVis s5 vp j d b t ∧
+    energyExchange S P D B e0 s0 distance_0 s1 s2 distance_ij P P' D B fft s3 s4 p2o c dt K nVis s5 vp j d b t ≤
+      energyExchange S P D B e0 s0 distance_0 s1 s2 distance_ij P P' D B fft s3 s4 p2o c dt (K + 1) nVis s5 vp j d b t :=
+  Sparrow.energyExchange_nonneg_mono S P D B e0 s0 distance_0 s1 s2 distance_ij P' fft s3 s4 p2o c dt K nVis s5 vp b hwf he hf j d t hj hd ht
+
+end Sparrow.Props.C03.Translated
